@@ -95,6 +95,10 @@ class E3:
             e3.rec("C16", key + ":no-unlinked-entry", not unl,
                    "at the %s call `%s` in %s: every entry inserted into the cache's table is already linked into its list"
                    % (c.user_kind, c.callee, fr.body.path), c.loc)
+            unh = ip_.gset(st, "unhinged")
+            e3.rec("C16", key + ":no-unhinged-entry", not unh,
+                   "at the %s call `%s` in %s: no entry has been taken out of the list while it is still in the cache's table"
+                   % (c.user_kind, c.callee, fr.body.path), c.loc)
             det = e3.detached(ip_, st)
             e3.rec("C16", key + ":table-not-detached", not det,
                    "at the %s call `%s` in %s: the table that backs the linked entries is still the cache's table (not handed to a "
@@ -249,6 +253,9 @@ class E3:
             unl = ip.gset(s, "unlinked")
             self.rec("C07", "%s:exit[%s]:inserted-entries-linked" % (name, sig), not unl,
                      "when `%s` returns %s every entry it inserted into the cache's table has been linked into the list" % (name, sig), loc)
+            unh = ip.gset(s, "unhinged")
+            self.rec("C07", "%s:exit[%s]:no-unhinged-entry" % (name, sig), not unh,
+                     "when `%s` returns %s every entry of the table is in the list (none was unlinked and left in the table)" % (name, sig), loc)
             sw = ip.gset(s, "stale_write")
             self.rec("C07", "%s:exit[%s]:no-write-through-stale-handle" % (name, sig), not sw,
                      "on the way to `%s` returning %s nothing was written through a handle to an entry that may already have left its table "
@@ -753,6 +760,10 @@ def apply(ctx, res, prop, floor=None):
                 res.violate("E3:" + rec["key"], rec["desc"], rec["loc"], {}, "E3 abstract interpreter")
             continue
         shared = (prop == "C02" and rec["prop"] == "C16" and rec["key"].endswith(":CS=G")) or \
+                 (prop == "C01" and rec["prop"] == "C02" and (":exit" in rec["key"] or "entry-size-at-insert" in rec["key"])) or \
+                 (prop == "C01" and rec["prop"] == "C11" and rec["key"].endswith(":re-accounted")) or \
+                 (prop == "C03" and rec["prop"] == "C01" and rec["key"].split(":")[0] in ("insert", "mutate", "set_max_size") and rec["key"].endswith("CS<=MS")) or \
+                 (prop == "C07" and rec["prop"] == "C16" and rec["key"].endswith(":no-unhinged-entry")) or \
                  (prop == "C07" and rec["prop"] == "C16" and (rec["key"].endswith(":no-link-into-unowned-table") or
                                                               rec["key"].endswith(":table-not-detached") or rec["key"].endswith(":no-unlinked-entry"))) or \
                  (prop == "C11" and rec["prop"] == "C03" and rec["key"].startswith("mutate:"))
